@@ -13,3 +13,5 @@ RULES = {"C08.a", "C08.b", "C08.c", "C08.d", "C08.e"}
 def check(ctx):
     classes.analyze(ctx, RULES)
     sharing.analyze(ctx, {"C08.e", "C02.f"})
+    from . import casts
+    casts.analyze(ctx, {"C17.a"})   # a class id must not wrap: the id on a transition selects the predicate
